@@ -87,7 +87,7 @@ CHECKS = {
   technique="bounded symbolic execution of go/ssa over hand-built dependent-block frames + SMT (z3), native replay",
   design="DESIGN.md section 5 C16"),
  "C17": dict(
-  text="Every sequence of 4 calls with symbolically chosen opcodes on a Writer (Apply, Write, ReadFrom, Flush, Close, Reset new/same sink) and on a Reader (Read small/large/empty, WriteTo, Size, Reset) is executed and compared after each call with the reference model of the statement (exactly-once emission as one frame, decodable prefix after Flush, options persistence, failures after Close, sticky end of stream without consuming the source); hangs show up as unwinding failures. The Writer sequences are also run on a concurrent Writer (ConcurrencyOption 2, 3) under every schedule within the delay bound.",
+  text="Every sequence of 4 calls with symbolically chosen opcodes on a Writer (Apply, Write, ReadFrom, Flush, Close, Reset new/same sink) and on a Reader (Read small/large/empty, WriteTo, Size, Reset) is executed and compared after each call with the reference model of the statement (exactly-once emission as one frame, decodable prefix after Flush, options persistence, failures after Close, sticky end of stream without consuming the source); hangs show up as unwinding failures. The Writer sequences are also run on a concurrent Writer (ConcurrencyOption 2, 3) and the Reader sequences on a concurrent Reader (ConcurrencyOption 2), under every schedule within the delay bound.",
   note=FRAME_NOTE + " " + CONC_NOTE,
   technique="bounded symbolic execution of go/ssa over symbolic call sequences vs reference model + SMT (z3), native replay",
   design="DESIGN.md section 5 C17"),
